@@ -5,6 +5,7 @@ set -u
 cd "$(dirname "$0")"
 export CARGO_NET_OFFLINE=true
 mkdir -p build evidence replays
+[ -f harness/libgate/build.sh ] && bash harness/libgate/build.sh
 python3 - <<'PY'
 import sys, os, glob
 sys.path.insert(0, "tools")
